@@ -29,8 +29,8 @@ WRONG = {
 }
 # which wrong values are invalid for which slot
 INVALID_FOR = {
-    "time": ["int", "float", "bool", "bytes", "list", "dict", "str", "numstr", "tuple", "date", "time_of_day", "timedelta"],
-    "measurement": ["int", "float", "bool", "bytes", "list", "dict", "tuple"],
+    "time": ["int", "float", "bool", "bytes", "list", "dict", "str", "numstr", "tuple", "date", "time_of_day", "timedelta", "none"],
+    "measurement": ["int", "float", "bool", "bytes", "list", "dict", "tuple", "none"],
     "tag_key": ["int", "float", "bool", "bytes", "none", "tuple", "set", "date"],
     "tag_value": ["int", "float", "bool", "bytes", "list", "dict", "tuple", "false", "zero", "decimal", "date"],
     "field_key": ["int", "float", "bool", "bytes", "none", "tuple", "set", "decimal"],
